@@ -563,7 +563,36 @@ pub fn gen_request(r: &mut Rng, rules: &[String]) -> Req {
             "?a-b=1&foo=&ad",
         ]));
     }
+    // a URL that ends exactly with the body of an end-anchored rule
+    if !rules.is_empty() && r.chance(1, 5) {
+        let rule = r.pick(rules);
+        let body_end = rule.rfind('$').unwrap_or(rule.len());
+        let t = rule[..body_end].trim_start_matches("@@");
+        if t.ends_with('|') && !t.starts_with("||") && !t.starts_with("|http") && !t.starts_with("|ws") && t.len() > 2 {
+            if let Some(i) = path.find('?') {
+                path.truncate(i);
+            }
+            path.push_str(r.ps(SEP));
+            let b = instantiate_body(r, rule);
+            path.push_str(&b);
+        }
+    }
     let url = format!("{}://{}/{}", scheme, host, path.trim_start_matches('/'));
+    // an initiator taken from some rule's domain= list
+    let listed: Option<String> = if !rules.is_empty() && r.chance(1, 3) {
+        let rule = r.pick(rules);
+        rule.rfind("domain=").map(|i| {
+            let list = rule[i + 7..].split(',').next().unwrap_or("");
+            let ds: Vec<&str> = list.split('|').collect();
+            r.pick(&ds).trim_start_matches('~').to_string()
+        })
+    } else {
+        None
+    };
+    if let Some(d) = listed.filter(|d| !d.is_empty() && d.is_ascii() && !d.contains('*')) {
+        let source = if r.chance(1, 4) { format!("https://sub.{}/p", d) } else { format!("https://{}/", d) };
+        return Req { url, source, rtype: r.ps(TYPES) };
+    }
     let source = match r.below(8) {
         0 => String::new(),
         1 => format!("https://{}/", host),
@@ -651,22 +680,27 @@ pub fn gen_cluster(r: &mut Rng, p: &Profile) -> Vec<String> {
     // sometimes the whole cluster consists of removeparam rules (same bucket, same mask, different
     // parameter names): the category an explicit optimize() must leave alone
     let rp_cluster = p.removeparam && r.chance(1, 8);
+    // sometimes every rule of the cluster carries a long initiator list (8-16 sites out of 24):
+    // the per-rule unions of domain hashes saturate, the lists themselves still differ
+    let long_domains = p.domains && !rp_cluster && r.chance(1, 6);
     for _ in 0..n {
         let mut s = String::new();
         let exception = p.exceptions && r.chance(1, 5);
         if exception {
             s.push_str("@@");
         }
-        let shape = r.below(15);
+        // long-domain clusters keep to few shapes so that masks (and hence fusion keys) coincide
+        let shape = if long_domains && r.chance(3, 4) { [0usize, 1, 11, 2][r.below(4)] } else { r.below(16) };
         match shape {
-            12 => s.push_str(&format!("/{}*{}|", tok, r.ps(&["a", "b", "x1"]))),
+            12 => s.push_str(&format!("/{}*{}|", tok, r.ps(&["a", "b", "x1", "ab", "a?1"]))),
+            15 => s.push_str(&format!("|https://ads.net/{}/{}|", tok, r.ps(&["a", "b", "ab", "a?1"]))),
             13 => s.push_str(&format!("|https://ads.net/{}^{}", tok, r.ps(&["", "a", "b"]))),
             14 => s.push_str(&format!("|https://*/{}/{}", tok, r.ps(&["a", "b", "c"]))),
             0 => s.push_str(&format!("/{}/{}", tok, r.ps(&["a", "b", "c", "d", "1", "2"]))),
             1 => s.push_str(&format!("/{}-{}.", tok, r.ps(&["a", "b", "x"]))),
             2 => s.push_str(&format!("/{}*{}", tok, r.ps(&["a=", "b/", "x1"]))),
             3 => s.push_str(&format!("/{}^", tok)),
-            4 => s.push_str(&format!("/{}/{}|", tok, r.ps(&["a", "b"]))),
+            4 => s.push_str(&format!("/{}/{}|", tok, r.ps(&["a", "b", "ab", "a?1", "a.gif", "a.gif?1"]))),
             5 => s.push_str(&format!("|https://ads.net/{}/", tok)),
             6 => s.push_str(&format!("||ads.net/{}/", tok)),
             7 => {
@@ -682,11 +716,11 @@ pub fn gen_cluster(r: &mut Rng, p: &Profile) -> Vec<String> {
             _ => s.push_str(&format!("/{}.{}", tok, r.ps(&["js", "gif", "a"]))),
         }
         let mut opts: Vec<String> = vec![];
-        let o = r.ps(&pool);
+        let o = if long_domains { r.ps(&["", "", "script"]) } else { r.ps(&pool) };
         if !o.is_empty() {
             opts.push(o.to_string());
         }
-        match r.below(16) {
+        match if long_domains { 15 } else { r.below(16) } {
             0 if p.important && (!exception || r.chance(1, 3)) => opts.push("important".into()),
             1 if p.tags => opts.push(format!("tag={}", r.ps(TAGS))),
             2 if p.domains => opts.push(format!("domain={}", r.ps(HOSTS))),
@@ -698,15 +732,37 @@ pub fn gen_cluster(r: &mut Rng, p: &Profile) -> Vec<String> {
             5 if p.full_regex && shape == 7 => opts.push("match-case".into()),
             _ => {}
         }
+        if long_domains && !opts.iter().any(|o| o.starts_with("domain=") || o.starts_with("csp=")) {
+            let n = 10 + r.below(9);
+            let negs = r.chance(1, 4);
+            let mut ds: Vec<String> = vec![];
+            while ds.len() < n {
+                let d = format!("{}site{:02}.com", if negs && r.chance(1, 8) { "~" } else { "" }, r.below(30));
+                if !ds.iter().any(|x| x.trim_start_matches('~') == d.trim_start_matches('~')) {
+                    ds.push(d);
+                }
+            }
+            opts.push(format!("domain={}", ds.join("|")));
+        }
         if rp_cluster && !exception && (shape != 7 || !p.full_regex) {
             opts.retain(|o| !o.starts_with("csp=") && !o.starts_with("redirect=") && !o.starts_with("tag=") && o != "important");
             opts.push(format!("removeparam={}", r.ps(&["ad", "foo", "x1", "utm_source", "fbclid", "y"])));
         }
-        if !opts.is_empty() {
-            s.push('$');
-            s.push_str(&opts.join(","));
-        }
+        // a right-anchored rule often comes with a sibling whose text extends it (same options):
+        // `P|` does not cover `PX|`
+        let sibling = if matches!(shape, 4 | 12 | 15) && r.chance(1, 2) {
+            let ext = r.ps(&["b", "?1", ".gif", "2"]);
+            Some(format!("{}{}|", s.trim_end_matches('|'), ext))
+        } else {
+            None
+        };
+        let tail = if opts.is_empty() { String::new() } else { format!("${}", opts.join(",")) };
+        s.push_str(&tail);
         out.push(s);
+        if let Some(mut sib) = sibling {
+            sib.push_str(&tail);
+            out.push(sib);
+        }
     }
     out
 }
